@@ -1,13 +1,14 @@
 #!/bin/sh
-# usage: tools/trymut.sh <patch.diff> <ID> [<ID>...]   applies the patch to /repo, runs the quick checks, reverts
+# usage: tools/trymut.sh <patch.diff> <ID> [<ID>...]   applies the patch to /repo (or VERIF_REPO), runs the quick checks, reverts
 P=$1; shift
-cd /repo && git apply "$P" || { echo "PATCH DOES NOT APPLY"; exit 2; }
-cd /verif
+R=${VERIF_REPO:-/repo}; V=$(cd "$(dirname "$0")/.." && pwd)
+cd $R && git apply "$P" || { echo "PATCH DOES NOT APPLY"; exit 2; }
+cd $V
 for id in "$@"; do
   out=$(./bin/check $id 2>/dev/null); rc=$?
   echo "== $id rc=$rc"; echo "$out" | grep -v KNOWN-FINDING | cut -c1-220
 done
-cd /repo && git checkout -- . && git status --short | grep -v '^??' | head
+cd $R && git checkout -- . && git status --short | grep -v '^??' | head
 # evidence files were overwritten by the runs against the changed tree: regenerate them from the clean tree
-cd /verif
+cd $V
 for id in "$@"; do ./bin/check $id >/dev/null 2>&1 || echo "!! $id does not pass on the clean tree (restoring evidence)"; done
